@@ -53,7 +53,7 @@ fn occupied(t: &Table, tables: usize, buckets: usize) -> usize {
 }
 
 /// C15.a — every history of at most `N` inserts, then one lookup.
-fn history<const N: usize>(tables: usize, buckets: usize, tag: &str) {
+fn history<const N: usize>(tables: usize, buckets: usize, tag: &str) -> (bool, usize, usize, usize) {
     let t = Table::new(tables, buckets);
     let n: usize = kani::any();
     kani::assume(n <= N);
@@ -112,20 +112,33 @@ fn history<const N: usize>(tables: usize, buckets: usize, tag: &str) {
         assert!(occ == distinct, "occupied slots = distinct keys while no bucket can have overflowed");
     }
     assert!(t.max_entries() == Table::BUCKET_SIZE * tables * buckets, "capacity is buckets x bucket size");
-    kani::cover!(got.is_some() && last + 1 < n, "found, with later inserts of other keys");
-    kani::cover!(got.is_none() && last < N, "an inserted key was displaced");
-    kani::cover!(got.is_some() && n == N && distinct < n, "a key was overwritten and the newer entry returned");
+    (got.is_some(), last, n, distinct)
 }
 
 proof! {
     fn history_1x1_n10() {
-        history::<10>(1, 1, "c15 history_1x1_n10");
+        let (found, last, n, distinct) = history::<10>(1, 1, "c15 history_1x1_n10");
+        kani::cover!(found && last + 1 < n, "found, with later inserts of other keys");
+        kani::cover!(!found && last < 10, "an inserted key was displaced");
+        kani::cover!(found && n == 10 && distinct < n, "a key was overwritten and the newer entry returned");
+    }
+}
+
+proof! {
+    fn history_1x1_n6() {
+        let (found, last, n, distinct) = history::<6>(1, 1, "c15 history_1x1_n6");
+        kani::cover!(found && last + 1 < n, "found, with later inserts of other keys");
+        kani::cover!(found && last == 0 && distinct == 6, "the first of 6 distinct keys is still there");
+        kani::cover!(found && n == 6 && distinct < n, "a key was overwritten and the newer entry returned");
     }
 }
 
 proof! {
     fn history_1x1_n9() {
-        history::<9>(1, 1, "c15 history_1x1_n9");
+        let (found, last, n, distinct) = history::<9>(1, 1, "c15 history_1x1_n9");
+        kani::cover!(found && last + 1 < n, "found, with later inserts of other keys");
+        kani::cover!(!found && last < 9, "an inserted key was displaced");
+        kani::cover!(found && n == 9 && distinct < n, "a key was overwritten and the newer entry returned");
     }
 }
 
